@@ -67,10 +67,19 @@ decode_huffman_code_block_stateless(struct inflate_state *s, uint8_t *start_out)
 /* libc model: CBMC 6.11 ships no body for strnlen (a body-less function returns an arbitrary
  * value).  POSIX semantics; reads s[i] only for i < n and only up to the first NUL, so an
  * over-read of an exact-size object is still reported.  Natively the real libc strnlen is used. */
+/* No object in the header/trailer harnesses is larger than MODEL_MAX bytes.  A length/limit above it can
+ * only come from corrupted cursor arithmetic (e.g. avail_in wrapped below zero); it is reported as a
+ * failed assertion and the path is cut, instead of surfacing as an unwinding failure / time-out.
+ * Natively the real libc function runs and AddressSanitizer reports the out-of-bounds access. */
+#define MODEL_MAX 40
 size_t
 strnlen(const char *s, size_t n)
 {
         size_t i;
+        if (n > MODEL_MAX) {
+                STUB_FAIL("strnlen limit exceeds every buffer of the harness (cursor arithmetic corrupted)");
+                __CPROVER_assume(0);
+        }
         for (i = 0; i < n && s[i] != 0; i++)
                 ;
         return i;
@@ -89,6 +98,10 @@ memcpy(void *dst, const void *src, size_t n)
         unsigned char *d = (unsigned char *) dst;
         const unsigned char *s = (const unsigned char *) src;
         size_t i;
+        if (n > MODEL_MAX) {
+                STUB_FAIL("memcpy size exceeds every buffer of the harness (size arithmetic corrupted)");
+                __CPROVER_assume(0);
+        }
         /* the fixed-size scalar copies of unaligned.h (load/store_{le,be}_u{16,32,64}) as one typed
          * access, so that constants still fold in the symbolic executor */
         if (n == 2) {
